@@ -118,7 +118,7 @@ def damage(rng, directory):
                 vals.append(os.path.join(dp, fn))
     vals.sort()
     kinds = ['delete', 'truncate', 'extend', 'add_known_dir', 'add_new_dir', 'empty2', 'empty1', 'empty12', 'count', 'size',
-             'move_known_dir', 'move_new_dir']
+             'move_known_dir', 'move_new_dir', 'cancel_count', 'cancel_size']
     for kind in rng.sample(kinds, rng.randint(0, 6)):
         if kind in ('delete', 'truncate', 'extend') and vals:
             p = vals.pop(rng.randrange(len(vals)))
@@ -159,6 +159,32 @@ def damage(rng, directory):
             a = '%02x' % rng.randrange(256)
             os.makedirs(os.path.join(directory, a, '%02x' % rng.randrange(256)), exist_ok=True)
             os.makedirs(os.path.join(directory, a, '%02x' % rng.randrange(256)), exist_ok=True)
+        elif kind == 'cancel_count' and vals:
+            # k value files deleted AND Settings.count too low by k: the row repairs bring the real
+            # count down to exactly the stale counter
+            k = rng.randint(1, min(3, len(vals)))
+            for _ in range(k):
+                os.remove(vals.pop(rng.randrange(len(vals))))
+            con = sqlite3.connect(os.path.join(directory, 'cache.db'), timeout=5)
+            con.execute('UPDATE Settings SET value = value - ? WHERE key = ?', (k, 'count'))
+            con.commit()
+            con.close()
+        elif kind == 'cancel_size' and vals:
+            # a file resized by d AND Settings.size already off by d in the same direction
+            p = vals.pop(rng.randrange(len(vals)))
+            old = os.path.getsize(p)
+            if rng.random() < 0.5 and old > 1:
+                dlt = -rng.randint(1, min(5, old - 1))
+                with open(p, 'r+b') as f:
+                    f.truncate(old + dlt)
+            else:
+                dlt = rng.randint(1, 9)
+                with open(p, 'ab') as f:
+                    f.write(b'x' * dlt)
+            con = sqlite3.connect(os.path.join(directory, 'cache.db'), timeout=5)
+            con.execute('UPDATE Settings SET value = value + ? WHERE key = ?', (dlt, 'size'))
+            con.commit()
+            con.close()
         elif kind in ('count', 'size'):
             con = sqlite3.connect(os.path.join(directory, 'cache.db'), timeout=5)
             con.execute('UPDATE Settings SET value = value + ? WHERE key = ?', (rng.choice([-2, -1, 1, 5]), kind))
